@@ -269,7 +269,7 @@ func c03Run(c *core.Ctx) *core.Result {
 		r.Count("prior_dirs_announced_as_symlink_or_fifo", 1)
 	}
 	// one mutation
-	mut := core.Pick(R, []string{"none", "none", "dotdot", "dot", "empty", "updown", "dotdotx", "abs", "unclean", "dup", "order", "childofnondir", "noparent", "hl-unknown", "hl-later", "hl-escape", "hl-nonfile", "data-unsolicited", "data-afterterm", "backslash", "newline", "hugesize", "fin-early", "stat-after-end", "err-packet", "req-from-sender", "hl-via-dest-symlink", "hl-via-dest-symlink"})
+	mut := core.Pick(R, []string{"none", "none", "dotdot", "dot", "empty", "updown", "dotdotx", "abs", "unclean", "dup", "order", "childofnondir", "noparent", "hl-unknown", "hl-later", "hl-escape", "hl-nonfile", "data-unsolicited", "data-afterterm", "backslash", "newline", "hugesize", "fin-early", "stat-after-end", "err-packet", "req-from-sender", "hl-via-dest-symlink", "hl-via-dest-symlink", "tmp-name-planted"})
 	k := 0
 	if len(stats) > 0 {
 		k = R.Intn(len(stats) + 1)
@@ -383,6 +383,25 @@ func c03Run(c *core.Ctx) *core.Result {
 		st := fileStat("zzz-huge")
 		st.Size = 1 << 60
 		stats = append(stats, st)
+	case "tmp-name-planted":
+		// legal entries whose names look like the writer's temporary names
+		// (guessable if they were a counter or derived from the path): symlinks
+		// to the outside, sorting before the entries that get replaced
+		for _, nm := range []string{".tmp.0", ".tmp.1", ".tmp.2", ".tmp.000000001", ".tmp.a"} {
+			if R.P(2, 3) {
+				stats = append(stats, &types.Stat{Path: nm, Mode: uint32(os.ModeSymlink | 0777), Linkname: core.Pick(R, []string{outside + "/file", up + rc + "/outside/file", outside + "/dir/a"})})
+			}
+		}
+		for i := len(stats) - 1; i > 0; i-- {
+			for j := i; j > 0 && tree.CmpPath(stats[j-1].Path, stats[j].Path) > 0; j-- {
+				stats[j-1], stats[j] = stats[j], stats[j-1]
+			}
+		}
+		for i := 1; i < len(stats); i++ {
+			for j := i; j > 0 && tree.CmpPath(stats[j-1].Path, stats[j].Path) > 0; j-- {
+				stats[j-1], stats[j] = stats[j], stats[j-1]
+			}
+		}
 	case "hl-via-dest-symlink":
 		// a well-formed stream: regular file X, later a hard link to X. The
 		// destination holds a symlink named X that points outside; the receiver
